@@ -62,7 +62,7 @@ func runC07(r *ev.Run) {
 	)
 
 	rng := r.Rand("c07")
-	perPoint := r.Pick(3, 1000)
+	perPoint := r.Pick(6, 1000)
 
 	// reference runs
 	ev.Parallel(len(ops), 8, func(i int) {
